@@ -137,6 +137,14 @@ func vxCap() int {
 	return 1 + vxSplit("cap", 3)
 }
 
+// lookups and removals are cheap: one more capacity in both tiers
+func vxCapLookup() int {
+	if vxTier() == 0 {
+		return 1 + vxSplit("cap", 3)
+	}
+	return 1 + vxSplit("cap", 4)
+}
+
 // capacity of the second operand of a binary operation
 func vxCap2() int {
 	if vxTier() == 0 {
@@ -146,7 +154,7 @@ func vxCap2() int {
 }
 
 func VX_C17_get() {
-	t := vxHashMap("s", vxCap())
+	t := vxHashMap("s", vxCapLookup())
 	q := vxKey("q")
 	want, present := vxLookup(t.h, q)
 	got, err := HashMapOfValueGet(nil, t.h, value.SmallInt(q).ToValue())
@@ -185,7 +193,7 @@ func VX_C17_set() {
 }
 
 func VX_C17_delete() {
-	t := vxHashMap("s", vxCap())
+	t := vxHashMap("s", vxCapLookup())
 	q, probe := vxKey("q"), vxKey("probe")
 	oldLen := t.h.Length()
 	oldVal, oldPresent := vxLookup(t.h, probe)
